@@ -18,6 +18,13 @@ type packObs struct {
 	responses int
 	onResp    func(r *replica.Replica, kind string, req *change.Pack, pb *api.ChangePack, err error)
 	onReq     func(r *replica.Replica, kind string, pack *change.Pack)
+	onApplied func(r *replica.Replica, kind string, pack *change.Pack)
+}
+
+func (o *packObs) OnApplied(r *replica.Replica, kind string, pack *change.Pack) {
+	if o.onApplied != nil {
+		o.onApplied(r, kind, pack)
+	}
 }
 
 func (o *packObs) OnRequest(r *replica.Replica, kind string, pack *change.Pack) {
